@@ -1,0 +1,9 @@
+//go:build verif
+
+package file
+
+// VerifClosed reports whether the data source has closed itself (file removed, or renamed away
+// and not found again). Only built with the verif tag.
+func (s *RefreshableFileDataSource) VerifClosed() bool {
+	return s.closed.Get()
+}
